@@ -9,672 +9,8 @@
 //!  for InMemory, MetaStore(.) and EncryptedStore(.) with the recorder below the wrapper.
 //! Every recovered state also gets the full C02 index<->document audit.
 
-use anda_db::error::DBError;
-use anda_object_store::{EncryptedStoreBuilder, MetaStoreBuilder};
-use object_store::ObjectStore;
-use std::collections::BTreeSet;
-use std::rc::Rc;
-use std::sync::Arc;
-use v_db::audit::{AuditCtx, audit};
-use v_db::driver::{Driver, GenCfg, Op, Step, gen_op};
-use v_db::{COLL, Cfg, FDoc, IndexSet, Model, apply_patch, connect, gen_doc, open_coll};
-use vcore::recstore::{Fault, RecStore};
-use vcore::run::block_on;
-use vcore::{Rng, Run, Stats, Value, json};
-
-#[derive(Debug, Clone, Copy, PartialEq, Eq)]
-enum Backend {
-    Plain,
-    Meta,
-    Enc,
-}
-
-fn wrap(b: Backend, inner: Arc<dyn ObjectStore>) -> Arc<dyn ObjectStore> {
-    match b {
-        Backend::Plain => inner,
-        Backend::Meta => Arc::new(MetaStoreBuilder::new(inner, 10000).build()),
-        Backend::Enc => Arc::new(EncryptedStoreBuilder::with_secret(inner, 10000, [7u8; 32]).build()),
-    }
-}
-
-#[derive(Clone)]
-struct OpRec {
-    op: Option<Op>, // None = setup (connect + create collection + indexes)
-    set_after: IndexSet,
-    end: usize,
-    after: Rc<Model>,
-    /// ids whose add had been acknowledged by a flush / clean close once this op returned
-    issued_after: Rc<BTreeSet<u64>>,
-    /// id the op touched (add: the new id), when it changed the model
-    touched: Option<u64>,
-}
-
-struct Clean {
-    rec: RecStore,
-    recs: Vec<OpRec>,
-    cfg: Cfg,
-    backend: Backend,
-    set0: IndexSet,
-    history: Vec<String>,
-}
-
-fn gencfg(contention: u64) -> GenCfg {
-    GenCfg { contention, ..Default::default() }
-}
-
-async fn clean_run(rng: &mut Rng, backend: Backend, n_ops: usize, st: &mut Stats) -> Option<Clean> {
-    let cfg = Cfg::random(rng);
-    let contention = *rng.pick(&[5u64, 10, 30]);
-    let set0 = if rng.chance(1, 3) { IndexSet::ALL } else { IndexSet(rng.below(512) as u16) };
-    let rec = RecStore::new();
-    rec.set_record_reads(false);
-    let store = wrap(backend, rec.as_dyn());
-    let mut d = match Driver::start(store, cfg, set0).await {
-        Ok(d) => d,
-        Err(e) => {
-            st.violation("C01/clean_setup_failed", json!({"error": format!("{e:?}")}));
-            return None;
-        }
-    };
-    let mut recs = vec![OpRec {
-        op: None,
-        set_after: set0,
-        end: rec.landed() as usize,
-        after: Rc::new(Model::default()),
-        issued_after: Rc::new(BTreeSet::new()),
-        touched: None,
-    }];
-    let g = gencfg(contention);
-    // every workload contains one reopen that creates one index and removes another in the same
-    // open callback (an index swap), placed at a random position
-    let swap_at = n_ops / 3 + rng.usize(n_ops / 2 + 1);
-    for i in 0..n_ops {
-        let mut op = gen_op(rng, &d.model, d.set, &g);
-        if i == swap_at {
-            let present: Vec<u16> = (0..9).map(|b| 1u16 << b).filter(|b| d.set.has(*b)).collect();
-            let absent: Vec<u16> = (0..9).map(|b| 1u16 << b).filter(|b| !d.set.has(*b)).collect();
-            let mut ns = d.set;
-            if let Some(a) = absent.first().copied().or(None) {
-                let a = if absent.len() > 1 { *rng.pick(&absent) } else { a };
-                if !v_db::backfill_conflict(&d.model, IndexSet(a)) {
-                    ns = IndexSet(ns.0 | a);
-                }
-            }
-            if !present.is_empty() {
-                ns = IndexSet(ns.0 & !*rng.pick(&present));
-            }
-            if absent.is_empty() {
-                // all registered: remove two now, a later random reopen may bring them back
-                ns = IndexSet(ns.0 & !*rng.pick(&present));
-            }
-            op = Op::Reopen(ns);
-            st.count("forced_index_swap_reopens");
-        }
-        let before_ids: BTreeSet<u64> = d.model.docs.keys().copied().collect();
-        let step = d.step(&op, st).await;
-        match step {
-            Step::Applied | Step::Rejected(_) => {}
-            Step::Failed(e) => {
-                st.violation("C01/storage_error_in_clean_run", json!({"error": e, "context": d.ctx()}));
-                return None;
-            }
-            Step::Wrong(sig, detail) => {
-                st.violation(format!("C01/clean/{sig}"), json!({"detail": detail, "context": d.ctx()}));
-                return None;
-            }
-        }
-        let touched = match &op {
-            Op::Add(_) => d.model.docs.keys().find(|k| !before_ids.contains(k)).copied(),
-            Op::Update(id, ..) | Op::Remove(id) => Some(*id),
-            _ => None,
-        };
-        recs.push(OpRec {
-            op: Some(op),
-            set_after: d.set,
-            end: rec.landed() as usize,
-            after: Rc::new(d.model.clone()),
-            issued_after: Rc::new(d.flushed_issued.clone()),
-            touched,
-        });
-    }
-    Some(Clean { rec, recs, cfg, backend, set0, history: d.history.clone() })
-}
-
-/// What had been acknowledged when mutation k landed, and the operation in flight.
-struct Cut<'a> {
-    acked: &'a OpRec,
-    inflight: Option<&'a OpRec>,
-    inflight_index: usize,
-}
-
-fn cut(recs: &[OpRec], k: usize) -> Option<Cut<'_>> {
-    // ops are sequential, so `end` is non-decreasing; acked = maximal prefix with end <= k
-    let n_acked = recs.iter().take_while(|r| r.end <= k).count();
-    if n_acked == 0 {
-        return None; // inside setup
-    }
-    Some(Cut { acked: &recs[n_acked - 1], inflight: recs.get(n_acked), inflight_index: n_acked })
-}
-
-async fn try_recover(
-    store: Arc<dyn ObjectStore>,
-    cfg: &Cfg,
-    set: IndexSet,
-    allow_recreate: bool,
-    st: &mut Stats,
-) -> Result<(anda_db::database::AndaDB, Arc<anda_db::collection::Collection>), DBError> {
-    let db = connect(store, cfg).await?;
-    match open_coll(&db, set).await {
-        Ok(c) => Ok((db, c)),
-        Err(DBError::AlreadyExists { .. }) if allow_recreate => {
-            // documented remedy for a crash inside collection creation
-            st.count("recovery_needed_delete_and_recreate");
-            db.delete_collection(COLL).await?;
-            let c = open_coll(&db, set).await?;
-            Ok((db, c))
-        }
-        Err(e) => Err(e),
-    }
-}
-
-/// Judges a recovered handle against the acknowledged history. Returns the model it settled on.
-#[allow(clippy::too_many_arguments)]
-async fn judge(
-    coll: &anda_db::collection::Collection,
-    clean: &Clean,
-    k: usize,
-    set: IndexSet,
-    what: &str,
-    st: &mut Stats,
-    extra: &Value,
-) -> Option<(Model, BTreeSet<u64>)> {
-    let ctx = || {
-        json!({"backend": format!("{:?}", clean.backend), "cfg": format!("{:?}", clean.cfg), "crash_after_mutation": k,
-               "of": clean.rec.landed(), "initial_indexes": clean.set0.0, "recovery_indexes": set.0, "history": clean.history,
-               "mutation_at_crash": clean.rec.mutations().get(k.saturating_sub(1)).map(|m| m.describe()), "extra": extra})
-    };
-    let (m0, inflight, issued): (Model, Option<&OpRec>, BTreeSet<u64>) = match cut(&clean.recs, k) {
-        None => (Model::default(), None, BTreeSet::new()),
-        Some(c) => ((*c.acked.after).clone(), c.inflight, (*c.acked.issued_after).clone()),
-    };
-    // candidate: the in-flight operation fully applied
-    let mut chosen = m0.clone();
-    let mut issued = issued;
-    if let Some(r) = inflight {
-        st.count(&format!("crash_inflight:{}", r.op.as_ref().map(|o| o.kind()).unwrap_or("setup")));
-        if let (Some(op), Some(id)) = (&r.op, r.touched) {
-            let m1 = &*r.after;
-            let applied = match op {
-                Op::Add(_) => coll.contains(id),
-                Op::Remove(_) => m0.docs.contains_key(&id) && !coll.contains(id),
-                Op::Update(..) => match (coll.get_as::<FDoc>(id).await, m1.docs.get(&id), m0.docs.get(&id)) {
-                    (Ok(d), Some(n), Some(o)) => &d == n && n != o,
-                    _ => false,
-                },
-                _ => false,
-            };
-            if applied {
-                chosen = m1.clone();
-                issued = (*r.issued_after).clone();
-                st.count("inflight_op_found_applied");
-            } else {
-                st.count("inflight_op_found_not_applied");
-            }
-            // extensions are judged leniently below, keep the acked ones
-            chosen.ext = m0.ext.clone();
-        }
-    } else {
-        st.count("crash_between_ops");
-    }
-    let sig = format!("C01/{what}");
-    let ok = audit(coll, &chosen, set, st, &AuditCtx { sig: &sig, ctx: &ctx }).await;
-    if !ok {
-        return None;
-    }
-    st.count("recovered_states_audited");
-    Some((chosen, issued))
-}
-
-/// After recovery the collection must accept and persist new writes; fresh ids never collide
-/// with acknowledged ones; a clean reopen reproduces the state; a further reopen is a fixpoint.
-#[allow(clippy::too_many_arguments)]
-async fn converge(
-    store: Arc<dyn ObjectStore>,
-    rec: &RecStore,
-    db: anda_db::database::AndaDB,
-    coll: Arc<anda_db::collection::Collection>,
-    clean: &Clean,
-    set: IndexSet,
-    mut model: Model,
-    issued: BTreeSet<u64>,
-    k: usize,
-    rng: &mut Rng,
-    st: &mut Stats,
-) {
-    let ctx = || json!({"backend": format!("{:?}", clean.backend), "cfg": format!("{:?}", clean.cfg), "crash_after_mutation": k, "history": clean.history});
-    let mut fresh_ids = vec![];
-    for i in 0..2u64 {
-        let mut d = gen_doc(rng, 1000);
-        d.uname = format!("fresh-{k}-{i}");
-        d.codes = vec![format!("fresh-code-{k}-{i}")];
-        d.grp = "gz".into();
-        d.slot = 100_000 + k as u64 * 4 + i;
-        match coll.add_from(&d).await {
-            Ok(id) => {
-                if issued.contains(&id) || model.docs.contains_key(&id) {
-                    st.violation("C01/id_handed_out_twice", json!({"id": id, "acknowledged_ids": issued, "context": ctx()}));
-                    return;
-                }
-                if let Some(max) = issued.iter().next_back() {
-                    if id <= *max {
-                        st.violation("C01/new_id_not_above_acknowledged", json!({"id": id, "max_acknowledged": max, "context": ctx()}));
-                        return;
-                    }
-                }
-                d._id = id;
-                model.docs.insert(id, d);
-                fresh_ids.push(id);
-            }
-            Err(e) => {
-                st.violation("C01/recovered_collection_rejects_writes", json!({"error": format!("{e:?}"), "context": ctx()}));
-                return;
-            }
-        }
-    }
-    // update one, remove one
-    if let Some(id) = fresh_ids.first().copied() {
-        let mut p = v_db::Patch::new();
-        p.insert("age".into(), anda_db::schema::Fv::U64(77));
-        match coll.update(id, p.clone()).await {
-            Ok(_) => {
-                let n = apply_patch(&model.docs[&id], &p).unwrap();
-                model.docs.insert(id, n);
-            }
-            Err(e) => {
-                st.violation("C01/recovered_collection_rejects_update", json!({"error": format!("{e:?}"), "context": ctx()}));
-                return;
-            }
-        }
-    }
-    if let Some(id) = model.docs.keys().next().copied() {
-        match coll.remove(id).await {
-            Ok(Some(_)) => {
-                model.docs.remove(&id);
-            }
-            other => {
-                st.violation("C01/recovered_collection_remove", json!({"id": id, "result": format!("{:?}", other.map(|o| o.is_some())), "context": ctx()}));
-                return;
-            }
-        }
-    }
-    if let Err(e) = coll.flush(anda_db::unix_ms()).await {
-        st.violation("C01/flush_after_recovery_failed", json!({"error": format!("{e:?}"), "context": ctx()}));
-        return;
-    }
-    if let Err(e) = db.close().await {
-        st.violation("C01/close_after_recovery_failed", json!({"error": format!("{e:?}"), "context": ctx()}));
-        return;
-    }
-    drop(coll);
-    drop(db);
-    // clean reopen: state == model
-    let (db2, c2) = match try_recover(store.clone(), &clean.cfg, set, false, st).await {
-        Ok(x) => x,
-        Err(e) => {
-            st.violation("C01/reopen_after_recovery_failed", json!({"error": format!("{e:?}"), "context": ctx()}));
-            return;
-        }
-    };
-    if !audit(&c2, &model, set, st, &AuditCtx { sig: "C01/after_recovery_and_writes", ctx: &ctx }).await {
-        return;
-    }
-    let _ = db2.close().await;
-    drop(c2);
-    drop(db2);
-    // fixpoint: a further reopen + close does not keep repairing
-    let mark = rec.mark();
-    match try_recover(store.clone(), &clean.cfg, set, false, st).await {
-        Ok((db3, c3)) => {
-            let n_open = rec.mutations_since(mark, None).iter().filter(|m| m.effective()).count();
-            st.max("max_mutations_of_a_settled_reopen", n_open as u64);
-            if n_open == 0 {
-                st.count("settled_reopen_wrote_nothing");
-            }
-            let _ = db3.close().await;
-            drop(c3);
-        }
-        Err(e) => {
-            st.violation("C01/second_reopen_failed", json!({"error": format!("{e:?}"), "context": ctx()}));
-        }
-    }
-    st.count("convergence_checks");
-}
-
-fn recovery_set(clean: &Clean, k: usize) -> (IndexSet, bool) {
-    match cut(&clean.recs, k) {
-        None => (clean.set0, true),
-        Some(c) => {
-            // an application restarts with the index configuration it was moving to
-            let set = match c.inflight.and_then(|r| r.op.as_ref()) {
-                Some(Op::Reopen(ns)) => *ns,
-                _ => c.acked.set_after,
-            };
-            // creation is acknowledged once setup returned
-            let _ = c.inflight_index;
-            (set, false)
-        }
-    }
-}
-
-async fn level1(clean: &Clean, k: usize, rng: &mut Rng, st: &mut Stats, do_converge: bool, l2_samples: usize) {
-    let inner = clean.rec.materialize(k).await;
-    let r1 = RecStore::over(inner.clone());
-    r1.set_record_reads(false);
-    let store = wrap(clean.backend, r1.as_dyn());
-    let (set, in_setup) = recovery_set(clean, k);
-    st.eval();
-    st.count("crash_points_l1");
-    let ctx = || json!({"backend": format!("{:?}", clean.backend), "cfg": format!("{:?}", clean.cfg), "crash_after_mutation": k,
-                        "history": clean.history, "mutation_at_crash": clean.rec.mutations().get(k.saturating_sub(1)).map(|m| m.describe())});
-    let (db, coll) = match try_recover(store.clone(), &clean.cfg, set, in_setup, st).await {
-        Ok(x) => x,
-        Err(e) => {
-            st.violation("C01/L1/reopen_failed", json!({"error": format!("{e:?}"), "context": ctx()}));
-            return;
-        }
-    };
-    let r_k = r1.landed() as usize;
-    st.max("max_recovery_mutations", r_k as u64);
-    if r_k > 0 {
-        st.count("recoveries_that_repaired_something");
-    }
-    let Some((model, issued)) = judge(&coll, clean, k, set, "L1", st, &json!(null)).await else {
-        return;
-    };
-    st.set("recovered_states", vcore::fnv_str(&format!("{:?}", model.docs)));
-    if do_converge {
-        converge(store, &r1, db, coll, clean, set, model, issued, k, rng, st).await;
-    } else {
-        drop(coll);
-        drop(db);
-    }
-    // L2: crash the recovery itself after j of its own mutations, then recover again
-    if r_k > 0 && l2_samples > 0 {
-        let js: Vec<usize> = if l2_samples >= r_k { (0..r_k).collect() } else { (0..l2_samples).map(|_| rng.usize(r_k)).collect() };
-        for j in js {
-            let inner = clean.rec.materialize(k).await;
-            let r2 = RecStore::over(inner);
-            r2.set_record_reads(false);
-            r2.set_fault(Fault::PowerOffAfter(j as u64));
-            let store2 = wrap(clean.backend, r2.as_dyn());
-            let first = try_recover(store2, &clean.cfg, set, in_setup, st).await;
-            drop(first); // whatever it managed: the process dies here
-            r2.reset_faults();
-            let dbg = std::env::var("VERIF_DEBUG").ok().and_then(|v| v.parse::<usize>().ok()) == Some(k);
-            if dbg {
-                println!("--- k={k} j={j}: mutations of the crashed recovery:");
-                for m in r2.mutations() {
-                    println!("      {}", m.describe());
-                }
-            }
-            let mark2 = r2.mark();
-            st.eval();
-            st.count("crash_points_l2");
-            // cold wrapper instance for the second boot
-            let store3 = wrap(clean.backend, r2.as_dyn());
-            match try_recover(store3, &clean.cfg, set, true, st).await {
-                Ok((_db, coll)) => {
-                    if dbg {
-                        println!("--- second recovery wrote:");
-                        for m in r2.mutations_since(mark2, None) {
-                            println!("      {}", m.describe());
-                        }
-                    }
-                    judge(&coll, clean, k, set, "L2", st, &json!({"recovery_crashed_after": j, "of": r_k})).await;
-                }
-                Err(e) => {
-                    let mut c = ctx();
-                    c["recovery_crashed_after"] = json!(j);
-                    st.violation("C01/L2/reopen_failed", json!({"error": format!("{e:?}"), "context": c}));
-                }
-            }
-        }
-    }
-}
-
-/// Unknown-outcome monitor: the workload is re-executed with one backend call failing.
-async fn unknown_outcome(seed_rng: &Rng, backend: Backend, n_ops: usize, fault: Fault, st: &mut Stats) {
-    let mut rng = seed_rng.clone();
-    let rng = &mut rng;
-    let cfg = Cfg::random(rng);
-    let contention = *rng.pick(&[5u64, 10, 30]);
-    let set0 = if rng.chance(1, 3) { IndexSet::ALL } else { IndexSet(rng.below(512) as u16) };
-    let rec = RecStore::new();
-    rec.set_record_reads(false);
-    rec.set_fault(fault);
-    let store = wrap(backend, rec.as_dyn());
-    st.eval();
-    st.count("unknown_outcome_runs");
-    let mut hist_prefix = vec![format!("fault={fault:?} backend={backend:?}")];
-    let mut d = match Driver::start(store.clone(), cfg, set0).await {
-        Ok(d) => d,
-        Err(e) if v_db::driver::is_injected(&e) => {
-            // the fault hit database/collection creation: restart like an application
-            st.count("fault_hit_setup");
-            match recover_driver(store.clone(), cfg, set0, true, st).await {
-                Ok(d) => d,
-                Err(e2) => {
-                    st.violation("C01/UO/reopen_after_failed_setup", json!({"first_error": format!("{e:?}"), "error": format!("{e2:?}"), "fault": format!("{fault:?}"), "backend": format!("{backend:?}")}));
-                    return;
-                }
-            }
-        }
-        Err(e) => {
-            st.violation("C01/UO/setup_failed", json!({"error": format!("{e:?}")}));
-            return;
-        }
-    };
-    let g = gencfg(contention);
-    for _ in 0..n_ops {
-        let op = gen_op(rng, &d.model, d.set, &g);
-        let before = d.model.clone();
-        let issued_before = d.issued.clone();
-        let flushed_before = d.flushed_issued.clone();
-        let set_before = d.set;
-        let step = d.step(&op, st).await;
-        match step {
-            Step::Applied | Step::Rejected(_) => {}
-            Step::Wrong(sig, detail) => {
-                hist_prefix.extend(d.history.clone());
-                st.violation(format!("C01/UO/{sig}"), json!({"detail": detail, "history": hist_prefix}));
-                return;
-            }
-            Step::Failed(err) => {
-                st.count(&format!("fault_hit_op:{}", op.kind()));
-                // unknown outcome: the application reopens (fresh handles, cold wrapper) and looks
-                let target_set = match &op { Op::Reopen(ns) => *ns, _ => set_before };
-                let cold = wrap(backend, rec.as_dyn());
-                let mut nd = match recover_driver(cold, cfg, target_set, false, st).await {
-                    Ok(nd) => nd,
-                    Err(e2) => {
-                        hist_prefix.extend(d.history.clone());
-                        st.violation("C01/UO/reopen_failed", json!({"op_error": err, "error": format!("{e2:?}"), "history": hist_prefix}));
-                        return;
-                    }
-                };
-                // resolve the outcome by observation: fully applied or not at all
-                let mut resolved = before.clone();
-                let _ = &issued_before;
-                // after a crash-like reopen only flush-acknowledged ids are protected
-                let mut issued = flushed_before.clone();
-                match &op {
-                    Op::Add(doc) if d.predict_with(&before, set_before, &op).is_none() => {
-                        let known: BTreeSet<u64> = before.docs.keys().copied().collect();
-                        let extra: Vec<u64> = nd.coll.ids().into_iter().filter(|i| !known.contains(i)).collect();
-                        if extra.len() == 1 {
-                            let mut n = doc.clone();
-                            n._id = extra[0];
-                            resolved.docs.insert(extra[0], n);
-                            issued.insert(extra[0]);
-                            st.count("unknown_outcome_resolved_applied");
-                        } else {
-                            st.count("unknown_outcome_resolved_not_applied");
-                        }
-                    }
-                    Op::Update(id, p, _) if d.predict_with(&before, set_before, &op).is_none() => {
-                        let n = apply_patch(&before.docs[id], p).unwrap();
-                        if nd.coll.get_as::<FDoc>(*id).await.ok().as_ref() == Some(&n) && n != before.docs[id] {
-                            resolved.docs.insert(*id, n);
-                            st.count("unknown_outcome_resolved_applied");
-                        } else {
-                            st.count("unknown_outcome_resolved_not_applied");
-                        }
-                    }
-                    Op::Remove(id) if before.docs.contains_key(id) => {
-                        if !nd.coll.contains(*id) {
-                            resolved.docs.remove(id);
-                            st.count("unknown_outcome_resolved_applied");
-                        } else {
-                            st.count("unknown_outcome_resolved_not_applied");
-                        }
-                    }
-                    Op::SaveExt(k, v) => {
-                        if nd.coll.get_extension_as::<u64>(k) == Some(*v) {
-                            resolved.ext.insert(k.clone(), *v);
-                        }
-                    }
-                    Op::RemoveExt(k) => {
-                        if nd.coll.get_extension_as::<u64>(k).is_none() {
-                            resolved.ext.remove(k);
-                        }
-                    }
-                    _ => {}
-                }
-                nd.model = resolved;
-                nd.flushed_issued = flushed_before;
-                nd.issued = issued;
-                nd.history = d.history.clone();
-                nd.history.push(format!("-- storage error, application reopened: {}", &err[..err.len().min(120)]));
-                d = nd;
-                let ctx = d.ctx();
-                let ok = audit(&d.coll, &d.model, d.set, st, &AuditCtx { sig: "C01/UO", ctx: &|| json!({"fault": format!("{fault:?}"), "backend": format!("{backend:?}"), "driver": ctx.clone()}) }).await;
-                if !ok {
-                    return;
-                }
-                st.count("unknown_outcome_recoveries_audited");
-            }
-        }
-    }
-    // final: clean close + reopen equals the model
-    let fired_before_final = rec.fault_fired();
-    let _ = d.db.close().await;
-    let cold = wrap(backend, rec.as_dyn());
-    let mut fin = recover_driver(cold, cfg, d.set, false, st).await;
-    if let Err(e) = &fin {
-        if v_db::driver::is_injected(e) {
-            // the one-shot fault fired only now (inside this final close/reopen): restart again
-            st.count("fault_hit_final_reopen");
-            let cold = wrap(backend, rec.as_dyn());
-            fin = recover_driver(cold, cfg, d.set, false, st).await;
-        }
-    }
-    match fin {
-        Ok(nd) => {
-            // a fault that hit the final clean close leaves the last operations' durability to
-            // the crash rules; the model is only binding when the close was undisturbed
-            if fired_before_final {
-                let ctx = d.ctx();
-                audit(&nd.coll, &d.model, d.set, st, &AuditCtx { sig: "C01/UO/final", ctx: &|| json!({"fault": format!("{fault:?}"), "backend": format!("{backend:?}"), "driver": ctx.clone()}) }).await;
-            } else {
-                let ctx = d.ctx();
-                audit(&nd.coll, &d.model, d.set, st, &AuditCtx { sig: "C01/UO/final_after_late_fault", ctx: &|| json!({"fault": format!("{fault:?}"), "backend": format!("{backend:?}"), "driver": ctx.clone()}) }).await;
-            }
-        }
-        Err(e) => st.violation("C01/UO/final_reopen_failed", json!({"error": format!("{e:?}"), "context": d.ctx()})),
-    }
-    if rec.fault_fired() {
-        st.count("unknown_outcome_faults_fired");
-    }
-}
-
-async fn recover_driver(store: Arc<dyn ObjectStore>, cfg: Cfg, set: IndexSet, allow_recreate: bool, st: &mut Stats) -> Result<Driver, DBError> {
-    let (db, coll) = try_recover(store.clone(), &cfg, set, allow_recreate, st).await?;
-    Ok(Driver { store, cfg, set, db, coll, model: Model::default(), issued: BTreeSet::new(), flushed_issued: BTreeSet::new(), history: vec![] })
-}
-
-trait PredictWith {
-    fn predict_with(&self, m: &Model, set: IndexSet, op: &Op) -> Option<v_db::Reject>;
-}
-impl PredictWith for Driver {
-    fn predict_with(&self, m: &Model, set: IndexSet, op: &Op) -> Option<v_db::Reject> {
-        match op {
-            Op::Add(d) => {
-                if m.conflicts(0, d, set) {
-                    Some(v_db::Reject::Conflict)
-                } else if set.has(IndexSet::HNSW) && d.embedding.len() != v_db::DIM {
-                    Some(v_db::Reject::BadVector)
-                } else {
-                    None
-                }
-            }
-            Op::Update(id, p, bad) => {
-                let cur = m.docs.get(id)?;
-                if let Some(b) = bad {
-                    if *b != v_db::Reject::BadVector || set.has(IndexSet::HNSW) {
-                        return Some(*b);
-                    }
-                }
-                match apply_patch(cur, p) {
-                    Some(n) => m.conflicts(*id, &n, set).then_some(v_db::Reject::Conflict),
-                    None => Some(v_db::Reject::Schema),
-                }
-            }
-            _ => None,
-        }
-    }
-}
-
-fn case(case: u64, rng: &mut Rng, st: &mut Stats, tier: vcore::Tier) {
-    let backend = [Backend::Plain, Backend::Meta, Backend::Enc][(case % 3) as usize];
-    let n_ops = 12 + rng.usize(tier.pick(14, 29));
-    let wl_rng = rng.fork();
-    block_on(async {
-        let mut r = wl_rng.clone();
-        let Some(clean) = clean_run(&mut r, backend, n_ops, st).await else {
-            return;
-        };
-        let m = clean.rec.landed() as usize;
-        st.count(&format!("workloads:{backend:?}"));
-        st.add("clean_run_mutations", m as u64);
-        let kinds: BTreeSet<&str> = clean.recs.iter().filter_map(|r| r.op.as_ref().map(|o| o.kind())).collect();
-        if kinds.contains("flush") && kinds.contains("update") && kinds.contains("remove") {
-            st.distinct(vcore::fnv_str(&clean.history.join(";")));
-        }
-        // L1: every crash point; convergence on a sample (it costs ~4 reopens)
-        for k in 0..=m {
-            let do_conv = tier.pick(k % 7 == (case as usize % 7), k % 2 == 0);
-            let l2 = tier.pick(if k % 11 == (case as usize % 11) { 2 } else { 0 }, if k % 3 == 0 { usize::MAX } else { 0 });
-            level1(&clean, k, rng, st, do_conv, l2).await;
-            if st.violations.len() >= 3 {
-                return;
-            }
-        }
-        // UO: a single call failing before / after it landed
-        let attempts = clean.rec.attempts() as usize;
-        let n_uo = tier.pick(10, attempts);
-        for i in 0..n_uo {
-            let a = if n_uo >= attempts { i } else { rng.usize(attempts.max(1)) } as u64;
-            for fault in [Fault::FailAfter(a), Fault::FailBefore(a)] {
-                unknown_outcome(&wl_rng, backend, n_ops, fault, st).await;
-                if st.violations.len() >= 3 {
-                    return;
-                }
-            }
-        }
-        st.sample(|| json!({"backend": format!("{backend:?}"), "cfg": format!("{:?}", clean.cfg), "ops": clean.history.iter().take(8).collect::<Vec<_>>(),
-                            "mutations": m, "first_mutations": clean.rec.mutations().iter().take(6).map(|x| x.describe()).collect::<Vec<_>>()}));
-    });
-}
+use v_db::crash::case;
+use vcore::Run;
 
 fn main() {
     let mut run = Run::from_args(
